@@ -885,6 +885,13 @@ func runC03(c *Ctx) {
 					if prims[call.Call.StaticCallee()] != "" {
 						told = true
 					}
+					// ... through a helper that synchronises the kernel with the mask (syncInterest(slot))
+					if h := call.Call.StaticCallee(); h != nil && isHelperOf(fn, h) && containsDeep(h, func(x ssa.Instruction) bool {
+						xc, ok := x.(*ssa.Call)
+						return ok && prims[xc.Call.StaticCallee()] != ""
+					}, 2) {
+						told = true
+					}
 					for _, a := range call.Call.Args {
 						if ac, ok := stripConv(a).(*ssa.Call); ok && isCallToFn(ac, createEv) {
 							told = true // the operation chosen by a helper and called through its value
@@ -1200,14 +1207,55 @@ func runC03(c *Ctx) {
 				}
 				nBatch++
 				okB := false
+				isBound := func(v ssa.Value) bool {
+					v = stripConv(v)
+					if _, isK := v.(*ssa.Const); isK {
+						return false
+					}
+					if call, ok := v.(*ssa.Call); ok {
+						if b, ok := call.Call.Value.(*ssa.Builtin); ok && (b.Name() == "len" || b.Name() == "cap") {
+							return false // the size of the array is not the number of entries filled
+						}
+					}
+					return true
+				}
 				for _, l := range guardsOf(in.Block()) {
 					op, x, y, isCmp := l.cmp()
-					if isCmp && op == token.LSS && stripConv(x) == stripConv(ia.Index) && isSyscallCount(y) {
+					if isCmp && op == token.LSS && stripConv(x) == stripConv(ia.Index) && isBound(y) {
 						okB = true
 					}
-					if isCmp && op == token.GTR && stripConv(y) == stripConv(ia.Index) && isSyscallCount(x) {
+					if isCmp && op == token.GTR && stripConv(y) == stripConv(ia.Index) && isBound(x) {
 						okB = true
 					}
+				}
+				// rotated loop (`for i := range n`): the index is a phi, each incoming value tested `< n` on its own edge
+				if ph, isPhi := stripConv(ia.Index).(*ssa.Phi); !okB && isPhi {
+					all := len(ph.Edges) > 0
+					for k, e := range ph.Edges {
+						edgeOK := false
+						same := func(a, b ssa.Value) bool {
+							a, b = stripConv(a), stripConv(b)
+							if a == b {
+								return true
+							}
+							ka, okA := constInt(a)
+							kb, okB := constInt(b)
+							return okA && okB && ka == kb
+						}
+						for _, l := range litsAt(ph.Block(), ph.Block().Preds[k]) {
+							op, x, y, isCmp := l.cmp()
+							if isCmp && op == token.LSS && same(x, e) && isBound(y) {
+								edgeOK = true
+							}
+							if isCmp && op == token.GTR && same(y, e) && isBound(x) {
+								edgeOK = true
+							}
+						}
+						if !edgeOK {
+							all = false
+						}
+					}
+					okB = all
 				}
 				c.check(okB, g, "batch bound", in.Pos(), "events[i] is read only for i < n", "the poll loop reads an entry of the event array that the last wait did not fill (index not strictly below the kernel's count): a stale entry of an earlier batch is dispatched to a slot that may have been closed or reused")
 			})
